@@ -55,6 +55,8 @@ class error_999_visitor(pyx12.error_visitor.error_visitor):
         """
         A value copied from the received document must not add or split elements or segments of this document
         """
+        if value is None:
+            return ''
         for term in (self.seg_term, self.ele_term, self.subele_term, self.repetition_term):
             value = value.replace(term, ' ')
         return value
@@ -246,10 +248,6 @@ class error_999_visitor(pyx12.error_visitor.error_visitor):
         """
         if err_st is None:
             raise EngineError('Cannot create AK2 : err_st is None')
-        if err_st.trn_set_id is None:
-            raise EngineError('Cannot create AK2: err_st.trn_set_id was not set')
-        if err_st.trn_set_control_num is None:
-            raise EngineError('Cannot create AK2: err_st.trn_set_control_num was not set')
         seg_data = pyx12.segment.Segment('AK2', '~', '*', ':')
         seg_data.set('01', self._echo(err_st.trn_set_id))
         seg_data.set('02', self._echo(err_st.trn_set_control_num).strip())
